@@ -846,9 +846,61 @@ static void all_ops(uint64_t seed)
     dyn<T>(rng);
 }
 
+// transpose of rows held the way callers hold them: a std::vector of batches on the heap, filled by assignment, transposed
+// through data() pointers, read back by stores.  (A kernel that accesses the rows through a pointer to an unrelated batch
+// type lets the optimiser reorder the caller's row stores against the kernel's loads: stale rows come back.  Local arrays of
+// the monitor above do not provoke it; this idiom does.)
+template <class T>
+__attribute__((noinline)) static void transpose_heap_rows(uint64_t seed)
+{
+    using B = xs::batch<T, ARCH>;
+    constexpr size_t N = B::size;
+    static OpStat& st = reg("C05", "transpose_heap_rows", tname<T>());
+    if (!st.on)
+        return;
+    Rng rng(mix(seed, 5150 + strhash(tname<T>())));
+    for (int rep = 0; rep < 16; ++rep)
+    {
+        T in[N][N], out[N][N];
+        for (size_t i = 0; i < N; ++i)
+            for (size_t j = 0; j < N; ++j)
+                in[i][j] = frombits<T>(sizeof(T) == 1 ? (bits_t<T>)((i * 67 + j * 29 + (i ^ j) + (size_t)rep + 1) & 0xff) : (bits_t<T>)((rng.next() << 16) | (i << 8) | (j + 1)));
+        std::vector<B> m(N);
+        for (size_t i = 0; i < N; ++i)
+            m[i] = B::load_unaligned(in[i]);
+        mark_case("transpose_heap_rows", tname<T>(), in, 64);
+        xs::transpose(m.data(), m.data() + N);
+        for (size_t i = 0; i < N; ++i)
+            m[i].store_unaligned(out[i]);
+        st.evals += N * N;
+        st.cell((unsigned)rep);
+        bool bad = false;
+        for (size_t i = 0; i < N && !bad; ++i)
+            for (size_t j = 0; j < N; ++j)
+                if (!same_bits(out[i][j], in[j][i]))
+                {
+                    viol(st, "unclassified", "{\"row\":" + std::to_string(i) + ",\"col\":" + std::to_string(j) + ",\"got\":\"" + hexv(out[i][j]) + "\",\"expected\":\"" + hexv(in[j][i]) + "\",\"got_row\":" + hexarr(out[i], N) + "}");
+                    bad = true;
+                    break;
+                }
+        if (st.want_sample())
+            st.samples.push_back("{\"rep\":" + std::to_string(rep) + ",\"first_row_in\":" + hexarr(in[0], N) + "}");
+    }
+}
+
 void vh::unit_main()
 {
     uint64_t s = ctx().seed;
+    transpose_heap_rows<int8_t>(s);
+    transpose_heap_rows<uint8_t>(s);
+    transpose_heap_rows<int16_t>(s);
+    transpose_heap_rows<uint16_t>(s);
+    transpose_heap_rows<int32_t>(s);
+    transpose_heap_rows<uint32_t>(s);
+    transpose_heap_rows<int64_t>(s);
+    transpose_heap_rows<uint64_t>(s);
+    transpose_heap_rows<float>(s);
+    transpose_heap_rows<double>(s);
     all_ops<int8_t>(s);
     all_ops<uint8_t>(s);
     all_ops<int16_t>(s);
